@@ -82,6 +82,9 @@ func unitsFor(prop, tier string) []Unit {
 		}
 	}
 	if prop == "C02" || prop == "C08" {
+		us = append(us, Unit{Prop: prop, Tier: tier, Kind: "procx", Index: 0, Name: "realrunner/failure-kinds (real processes)"})
+	}
+	if prop == "C02" || prop == "C08" {
 		// the same graph sweep in the build where every stage-status read / update is a scheduling point
 		for i := 0; i < chunkCount; i++ {
 			us = append(us, Unit{Prop: prop, Tier: tier, Kind: "x1chunk", Index: i, Bin: "sp", Name: fmt.Sprintf("statuspoints/x1chunk/%d-of-%d", i, chunkCount)})
